@@ -15,6 +15,7 @@ import Emu8086.Props.C04
 import Emu8086.Props.C05
 import Emu8086.Props.C06
 import Emu8086.Props.C07
+import Emu8086.Props.C09
 import Emu8086.Lemmas.Mem
 
 namespace Emu8086.Props.ExecAll
@@ -781,6 +782,12 @@ theorem noKF_of_knownFinding (m : Machine) (ctx : Ctx) (i : Instr) (h : Spec.kno
     simp only [Spec.knownFinding] at h
     split at h <;> simp_all
   | _ => trivial
+
+/-- for every line the interpreter's parser accepts (the `Instr.WF` hypothesis is discharged by
+    `C09.parseLine_wf`) -/
+theorem line_refines (cur : Nat) (m : Machine) (ctx : Ctx) (line : String) (i : Instr) (hp : parseLine line = some i)
+    (hc : ctx.WF) (hk : NoKF m ctx i) : RefinesMask (exec cur m ctx i) (execRef cur m ctx i) :=
+  exec_refines cur m ctx i hc (C09.parseLine_wf line i hp) hk
 
 /-- non-vacuity: the hypotheses are satisfiable by a concrete non-trivial state and instruction -/
 example : NoKF Machine.new {} (.arith16 .add (.reg .AX) (.mem ⟨some .ES, some .BX, some .SI, some 5#16⟩)) := trivial
